@@ -71,6 +71,16 @@ fn kind_of(r: &Result<(), TestCaseError>) -> &'static str {
 }
 
 fn other_outcome(kind: &str, format: ParserType, escaping: &Escaper, location: &Option<String>, line_number: usize) -> Outcome {
+    if kind == "malformed_same_line" {
+        // a second FAILING test case with the same location and the same line number (test cases of prepended / appended
+        // documents are reported under the main document's path)
+        let maker = scrut::expectation::ExpectationMaker::new(scrut::rules::registry::RuleRegistry::default());
+        let tc = TestCase { title: "other failing".into(), shell_expression: "other-command-failing".into(),
+                            expectations: vec![maker.parse("OTHER-EXPECTED-LINE").unwrap()], exit_code: None, line_number, config: TestCaseConfig::default_markdown() };
+        let output: Output = ("other-actual-line\n", "", Some(0)).into();
+        let result = tc.validate(&output);
+        return Outcome { location: location.clone(), output, testcase: tc, format, escaping: escaping.clone(), result };
+    }
     let tc = TestCase { title: format!("other {kind}"), shell_expression: format!("other-command-{kind}"), expectations: vec![], exit_code: None,
                         line_number, config: TestCaseConfig::default_markdown() };
     let (output, result): (Output, Result<(), TestCaseError>) = match kind {
@@ -125,9 +135,15 @@ fn one(id: u64, v: &Value, seed: u64) -> Vec<Value> {
                 }
             }
         }
-        let other_kind = ["success", "invalid_exit_code", "internal_error", "timeout", "skipped", "none"][pick(seed, id * 17 + k, 6)];
+        let other_kind = ["success", "invalid_exit_code", "internal_error", "timeout", "skipped", "none", "malformed_same_line"][pick(seed, id * 17 + k, 7)];
+        if other_kind == "malformed_same_line" {
+            unmatched_pretty.push("OTHER-EXPECTED-LINE".to_string());
+            unmatched_diff.push("OTHER-EXPECTED-LINE".to_string());
+            unexpected_pretty.push("other-actual-line".to_string());
+            unexpected_diff.push("other-actual-line".to_string());
+        }
         let main = Outcome { location: location.clone(), output, testcase: tc, format, escaping: escaping.clone(), result };
-        let other = if other_kind == "none" { None } else { Some(other_outcome(other_kind, format, &escaping, &location, line_number + 20)) };
+        let other = if other_kind == "none" { None } else { Some(other_outcome(other_kind, format, &escaping, &location, if other_kind == "malformed_same_line" { line_number } else { line_number + 20 })) };
         let mut outcomes: Vec<&Outcome> = vec![&main];
         if let Some(o) = &other { outcomes.push(o); }
         let kinds: Vec<&str> = outcomes.iter().map(|o| kind_of(&o.result)).collect();
